@@ -371,3 +371,16 @@ Theorem C08_no_helper_leaks : forall user (invs : list (option string * list str
   declared user ++ flat_map (fun inv => match fst inv with Some n => [n] | None => [] end) invs.
 Proof. exact no_helper_leaks. Qed.
 Print Assumptions C08_no_helper_leaks.
+
+(* ===================================================================================== *)
+(* C03 -- acceptance.  What is proved: the macro's overlap filter (rows compared position-    *)
+(* wise, lib.rs `is_overlapping`, modelled by Group.rows_distinct) never rejects a family     *)
+(* whose rows pairwise hold non-unifiable payloads at some shared key.  The completeness of  *)
+(* the family SEARCH and acceptance by rustc are decided differentially against a            *)
+(* hand-written reference encoding (see DESIGN: C03_accept_nested stays unproved).           *)
+(* ===================================================================================== *)
+
+Theorem C03_distinguishable_rows_accepted_partial : forall rows,
+  ForallOrdPairs distinguishable rows -> rows_distinct rows = true.
+Proof. exact distinguishable_rows_accepted. Qed.
+Print Assumptions C03_distinguishable_rows_accepted_partial.
